@@ -1,5 +1,6 @@
 """Shared driver code: harness process wrappers, run bookkeeping (verdicts, known
 findings, replay files, evidence), parallel map."""
+import fnmatch
 import hashlib
 import json
 import multiprocessing
@@ -175,6 +176,7 @@ class Proc:
             chunk = os.read(self.p.stdout.fileno(), 1 << 16)
             if not chunk:
                 return b"" if not self.buf else self._flush_tail()
+            self.buf += chunk
 
     def _flush_tail(self):
         line, self.buf = self.buf, b""
@@ -376,16 +378,21 @@ class Run:
         for key in sorted(self.viol):
             ent = None
             for o in self.opens:
-                if o["property"] == self.prop and o["key"] == key:
+                if o["property"] == self.prop and (o["key"] == key or fnmatch.fnmatchcase(key, o["key"])):
                     ent = o
                     break
             if ent is not None:
                 known_hit.append((key, ent))
             else:
                 unlisted.append(key)
+        seen_ent = {}
         for key, ent in known_hit:
-            print("KNOWN-FINDING: property=%s key=%s %s (seen %d times in this run)"
-                  % (self.prop, key, ent["what"], self.viol_count[key]))
+            k = ent["key"]
+            seen_ent.setdefault(k, [ent, 0, key])
+            seen_ent[k][1] += self.viol_count[key]
+        for k, (ent, n, first) in sorted(seen_ent.items()):
+            print("KNOWN-FINDING: property=%s key=%s %s (seen %d times in this run, e.g. %s)"
+                  % (self.prop, k, ent["what"], n, first))
         rc = 0
         for key in unlisted:
             h = hashlib.sha1(key.encode()).hexdigest()[:10]
